@@ -11,6 +11,8 @@ func Harness_C20_linear_attempt_2() { verifC20LinearAttempt(2) }
 func Harness_C20_linear_attempt_3() { verifC20LinearAttempt(3) }
 
 func verifC20LinearAttempt(count int) {
+	// fairness assumption: the receiver is slower than the ticker at most twice in total
+	verifBoundSelectDefaults(2)
 	ctx, cancel := context.WithCancel(context.Background())
 	c := LinearAttempt(ctx, time.Millisecond, count)
 	verifAssert(len(c) == 1, "first_value_available_at_return")
